@@ -168,6 +168,22 @@ pub open spec fn is_block_key(b: &BlockView, k: (Seq<char>, Seq<u8>)) -> bool {
     || k == (COLUMN_INDEX@, u64_le(bv_number(b))) || k == (COLUMN_INDEX@, b32(&bv_hash(b)))
 }
 
+
+// further accessors of the opaque block (so that code which reads the detached block where it should read the creating
+// transaction's location type-checks and is refuted rather than left undecided)
+pub uninterp spec fn bv_header(b: &BlockView) -> HeaderView;
+pub uninterp spec fn hv_epoch(h: &HeaderView) -> EpochNumberWithFraction;
+pub uninterp spec fn hv_number(h: &HeaderView) -> u64;
+pub uninterp spec fn hv_hash(h: &HeaderView) -> Byte32;
+impl BlockView {
+    #[verifier::external_body] pub fn header(&self) -> (r: HeaderView) ensures r == bv_header(self) { unimplemented!() }
+    #[verifier::external_body] pub fn epoch(&self) -> (r: EpochNumberWithFraction) ensures r == hv_epoch(&bv_header(self)) { unimplemented!() }
+}
+impl HeaderView {
+    #[verifier::external_body] pub fn epoch(&self) -> (r: EpochNumberWithFraction) ensures r == hv_epoch(self) { unimplemented!() }
+    #[verifier::external_body] pub fn number(&self) -> (r: u64) ensures r == hv_number(self) { unimplemented!() }
+    #[verifier::external_body] pub fn hash(&self) -> (r: Byte32) ensures r == hv_hash(self) { unimplemented!() }
+}
 // ---- cell records (unit c02_cells) ----
 #[verifier::external_body] pub struct TransactionView { _x: u64 }
 #[verifier::external_body] pub struct Bytes { _x: u64 }
